@@ -49,6 +49,14 @@ Definition mk_cred (mz : option mzview) (subj : option string) (exp : option snu
      c_expiration := match exp with Some e => Some (z_of_snum e) | None => None end;
      c_ctx := ctx |}.
 
+(* expiration as the instant (Unix seconds, nanoseconds) read from vc.Expiration *)
+Definition mk_cred_t (mz : option mzview) (subj : option string) (exp : option (snum * limbs))
+  (ctx : option (list term)) : cred :=
+  cred_at mz subj
+    (match exp with
+     | Some (s, n) => Some {| gt_sec := z_of_snum s; gt_nanos := z_of_limbs n |}
+     | None => None end) ctx.
+
 Definition mk_opts (nonce ver : limbs) (sp rp : string) (upd : bool) : opts :=
   {| o_nonce := z_of_limbs nonce; o_version := z_of_limbs ver; o_subject_pos := sp;
      o_root_pos := rp; o_updatable := upd |}.
